@@ -117,6 +117,9 @@ struct StackCheck {
     init: u64,
     addend: u64,
     src_reg: u8,
+    /// interpreter only: the add is moved this many bytes off its natural alignment; the
+    /// interpreter must refuse it (the execution ends there with an error, nothing was written)
+    misalign: u8,
 }
 
 impl StackCheck {
@@ -278,7 +281,7 @@ fn build_program(e: &ExecSpec, region_addr: u64) -> Vec<u8> {
         v.push(ins(0x7b, 10, 3, -8, 0));
         v.push(ins(0x7b, 10, 3, -24, 0));
         lddw(&mut v, c.src_reg, c.addend);
-        v.push(ins(if c.width == 4 { 0xc3 } else { 0xdb }, 10, c.src_reg, -16 + c.half as i16, 0));
+        v.push(ins(if c.width == 4 { 0xc3 } else { 0xdb }, 10, c.src_reg, -16 + c.half as i16 + c.misalign as i16, 0));
         v.push(ins(0x79, 8, 10, -16, 0)); // ldxdw r8, [r10-16]
         v.push(ins(0x79, 2, 10, -8, 0));
         v.push(ins(0xaf, 8, 2, 0, 0)); // xor64 r8, r2
@@ -345,6 +348,7 @@ impl Scenario {
                 cj["init"] = simcore::ju64(c.init);
                 cj["addend"] = simcore::ju64(c.addend);
                 cj["src_reg"] = c.src_reg.into();
+                cj["misalign"] = c.misalign.into();
                 j["stack_check"] = cj;
             }
             j["tail_load"] = match e.tail_load {
@@ -391,7 +395,7 @@ impl Scenario {
                 helper_first: e["helper_first"].as_bool().unwrap_or(false),
                 stack_check: if e["stack_check"].is_object() {
                     let c = &e["stack_check"];
-                    Some(StackCheck { width: c["width"].as_u8()?, half: c["half"].as_u8()?, init: simcore::pu64(&c["init"])?, addend: simcore::pu64(&c["addend"])?, src_reg: c["src_reg"].as_u8()? })
+                    Some(StackCheck { width: c["width"].as_u8()?, half: c["half"].as_u8()?, init: simcore::pu64(&c["init"])?, addend: simcore::pu64(&c["addend"])?, src_reg: c["src_reg"].as_u8()?, misalign: c["misalign"].as_u8().unwrap_or(0) })
                 } else {
                     None
                 },
@@ -543,7 +547,10 @@ fn generate(rng: &mut Rng) -> Scenario {
                 }
             }
             let init = if rng.chance(1, 2) { u64::MAX - rng.below(4) } else { rng.next_u64() };
-            Some(StackCheck { width, half: if width == 4 && rng.chance(1, 2) { 4 } else { 0 }, init, addend: rng.next_u64() | 1, src_reg: *rng.pick(&[2u8, 3, 4, 5, 9, 0, 7]) })
+            let half = if width == 4 && rng.chance(1, 2) { 4 } else { 0 };
+            // (a misaligned add still lies inside the stack: at most [r10-9, r10-1))
+            let misalign = if engine == Engine::Interp && rng.chance(1, 3) { rng.range(1, width as u64 - 1) as u8 } else { 0 };
+            Some(StackCheck { width, half, init, addend: rng.next_u64() | 1, src_reg: *rng.pick(&[2u8, 3, 4, 5, 9, 0, 7]), misalign })
         } else {
             None
         };
@@ -837,6 +844,11 @@ fn ev_desc(e: &Event) -> String {
 /// The adds an execution is expected to carry out, in order, and whether it must end in Err.
 fn expected_writes(spec: &ExecSpec) -> (Vec<Add>, bool) {
     let mut v = Vec::new();
+    if let Some(c) = &spec.stack_check {
+        if c.misalign != 0 && spec.engine == Engine::Interp {
+            return (v, true);
+        }
+    }
     let varying = spec.loop_n > 1 && spec.loop_step > 0 && spec.adds.len() == 1 && !spec.adds[0].src_is_base;
     for k in 0..spec.loop_n.max(1) {
         for a in &spec.adds {
@@ -877,7 +889,7 @@ fn check(sc: &Scenario, out: &RunOutput) -> Option<Violation> {
             _ => {}
         }
         if let (Some(c), Outcome::Ok(v)) = (&spec.stack_check, &out.outs[i].solo) {
-            if *v != c.expected() {
+            if c.misalign == 0 && *v != c.expected() {
                 return Some(Violation { class: format!("stack-xadd-wrong/{}/{}", eng, c.width as u32 * 8), detail: format!("execution #{}: a {}-bit atomic add of {:#x} on the stack slot at r10-16{} holding {:#x}, folded with its two neighbours, gave {:#x}; expected {:#x}", i, c.width as u32 * 8, c.addend, if c.half == 4 { "+4" } else { "" }, c.init, v, c.expected()) });
             }
         }
